@@ -4,7 +4,10 @@ cd /verif || exit 2
 LIST="$@"; [ -z "$LIST" ] && LIST=$(ls seeded | grep -E "^C[0-9]+-[A-Z]$")
 for s in $LIST; do
   id=${s%-*}; checks=$id
-  [ "$s" = "C04-B" ] && checks="C04 C09"
+  [ "$s" = "C04-B" ] && checks="C04 C09"   # changes announce/receiver.go: the pubsub unit of C09 sees it
+  [ "$s" = "C01-C" ] && checks="C01 C08"   # overlapping syncs of one publisher: the scripts of C08 see it
+  [ "$s" = "C04-D" ] && checks="C04 C14"
+  [ "$s" = "C10-D" ] && checks="C10 C09"
   cd /repo; if [ -n "$(git status --porcelain)" ]; then echo "/repo dirty"; exit 2; fi
   if ! git apply /verif/seeded/$s/patch.diff 2>/dev/null; then
     if ! patch -p1 --no-backup-if-mismatch -s < /verif/seeded/$s/patch.diff >/dev/null 2>&1; then git checkout -- .; git clean -fdq; echo "$s: patch does not apply to the current tree"; echo "{\"applies\": false}" > /verif/seeded/$s/detection.json; continue; fi
